@@ -6,6 +6,11 @@ d from the clue ("^" up, "v" down, "<" left, ">" right) up to the board edge; "?
 
 Key order of call()/readings(): the BoolGridFrame(h-1, w-1) edges (horizontal row-major, then vertical row-major), then
 black_cell[y][x] row-major.  All values are bools.
+
+Shape ("dense", h, w): boards 4x4 / 3x5 / 5x3 (thorough: 4x5 / 5x4 / 5x5) with two to four clue cells; the clue cells are
+first left without information ("??"), the oracle lists the answers, and a few of them (evenly spaced in that list) are
+turned into complete clue sets - every clue cell gets an arrow and the number of black cells the answer has in that
+direction -, then thinned out (every second clue back to "??", or removed altogether) or falsified by one.
 """
 
 from . import base
@@ -25,6 +30,94 @@ def _cands(h, w):
     return _CACHE[(h, w)]
 
 
+def _picks(n, count):
+    if n <= count:
+        return list(range(n))
+    return sorted(set(round(i * (n - 1) / (count - 1)) for i in range(count)))
+
+
+def _line(h, w, y, x, d):
+    if d == "^":
+        return [(yy, x) for yy in range(0, y)]
+    if d == "v":
+        return [(yy, x) for yy in range(y + 1, h)]
+    if d == "<":
+        return [(y, xx) for xx in range(0, x)]
+    return [(y, xx) for xx in range(x + 1, w)]
+
+
+def dense_instances(rule, h, w, rich):
+    import itertools
+
+    cells = [(y, x) for y in range(h) for x in range(w)]
+    nedges = h * (w - 1) + (h - 1) * w
+
+    def inst(pr):
+        return {"height": h, "width": w, "problem": [list(r) for r in pr]}
+
+    def blank(place, mark="??"):
+        pr = [[".."] * w for _ in range(h)]
+        for y, x in place:
+            pr[y][x] = mark
+        return pr
+
+    yield inst(blank(()))
+    # clue-cell placements (two to four cells) that leave at least two answers; per size a few of them, evenly spaced in
+    # lexicographic order, the last one (last row) included
+    far = (h - 1, w - 1)
+    chosen = []
+    for k in (2, 3, 4):
+        if k == 4 and h * w > (20 if rich else 16):
+            continue
+        solvable = []
+        for place in itertools.combinations(cells, k):
+            if k >= 3 and (not rich or h * w > 20 or k == 4) and far not in place:
+                continue  # the larger placements only with the far corner, to keep the list short
+            sols = rule.readings(inst(blank(place)))[0]
+            if len(sols) >= 2:
+                solvable.append((place, sols))
+        idx = _picks(len(solvable), 4 if rich else 3)
+        if not rich:
+            idx = idx[1:]
+        chosen += [solvable[i] for i in idx]
+    for place, sols in chosen:
+        yield inst(blank(place))
+        for si in (_picks(len(sols), 3) if rich else [len(sols) // 2]):
+            sol = sols[si]
+            black = set(c for i, c in enumerate(cells) if sol[nedges + i])
+
+            def count(c, d):
+                return sum(1 for q in _line(h, w, c[0], c[1], d) if q in black)
+
+            longest = [max(ARROWS, key=lambda d: (len(_line(h, w, c[0], c[1], d)), -ARROWS.index(d))) for c in place]
+            modes = [longest] + ([[d] * len(place) for d in ARROWS] if rich else [[ARROWS[(ARROWS.index(d) + 1) % 4] for d in longest]])
+            for dirs in modes:
+                full = [(c, d, count(c, d)) for c, d in zip(place, dirs)]
+
+                def build(skip=None, mark="??", change=None):
+                    pr = blank(())
+                    for j, (c, d, n) in enumerate(full):
+                        if skip is not None and j % 2 == skip:
+                            pr[c[0]][c[1]] = mark
+                        else:
+                            if change and change[0] == j:
+                                n = n + change[1] if n + change[1] >= 0 else n + 1
+                            pr[c[0]][c[1]] = d + str(n)
+                    return pr
+
+                yield inst(build())
+                if dirs is longest or rich:
+                    yield inst(build(skip=0))
+                    yield inst(build(skip=1, mark=".."))
+                    yield inst(build(change=(0, 1)))
+                    yield inst(build(change=(len(full) - 1, -1)))
+                    if rich:
+                        yield inst(build(skip=1))
+                        yield inst(build(skip=0, mark=".."))
+                        yield inst(build(change=(0, -1)))
+                        yield inst(build(change=(len(full) - 1, 1)))
+
+
 class Yajilin(base.Rule):
     name = "yajilin"
 
@@ -33,15 +126,28 @@ class Yajilin(base.Rule):
         if tier != "quick":
             s += [(1, 4), (4, 1), (2, 4), (4, 2), (3, 4), (4, 3)]
         # long thin boards for clue values of two digits (one clue, or one clue per end)
-        s += [("long", 1, 12), ("long", 12, 1), ("long", 3, 12), ("long", 12, 3)]
+        s += [("long", 1, 12), ("long", 12, 1)]
+        s += [("long", 3, 10), ("long", 10, 3)] if tier == "quick" else [("long", 3, 12), ("long", 12, 3)]
         if tier != "quick":
             s += [("long", 2, 13), ("long", 13, 2), ("long", 1, 23), ("long", 23, 1)]
+        # dense clue sets derived from answers
+        s += [("dense", 4, 4), ("dense", 3, 5), ("dense", 5, 3)]
+        if tier != "quick":
+            s += [("dense", 4, 5), ("dense", 5, 4), ("dense", 5, 5)]
         return s
 
     def alphabet(self, shape):
         return ["??"] + [d + str(n) for d in ARROWS for n in (0, 1, 2)]
 
     def instances(self, shape, cap):
+        if shape[0] == "dense":
+            seen = set()
+            for p in dense_instances(self, shape[1], shape[2], cap > 1000):
+                key = repr(p)
+                if key not in seen:
+                    seen.add(key)
+                    yield p
+            return
         if shape[0] == "long":
             _, h, w = shape
             horiz = w >= h
